@@ -69,15 +69,18 @@ static int init_pubsub_fd(m_mod_t *mod) {
     if (_pipe(mod) == 0) {
         fd_src_t fd_src = {0};
         fd_src.fd = mod->pubsub_fd[0];
-        if (register_mod_src(mod, M_SRC_TYPE_PS, &fd_src, M_SRC_FD_AUTOCLOSE | M_SRC_PRIO_HIGH, NULL) == 0) {
+        const int ret = register_mod_src(mod, M_SRC_TYPE_PS, &fd_src, M_SRC_FD_AUTOCLOSE | M_SRC_PRIO_HIGH, NULL);
+        if (ret == 0) {
             return 0;
         }
         close(mod->pubsub_fd[0]);
         close(mod->pubsub_fd[1]);
         mod->pubsub_fd[0] = -1;
         mod->pubsub_fd[1] = -1;
+        /* A module must never be started without its mailbox */
+        return ret;
     }
-    return -errno;
+    return errno ? -errno : -EINVAL;
 }
 
 static int manage_srcs(m_mod_t *mod, m_ctx_t *c, int flag, bool stop) {
